@@ -234,6 +234,8 @@ def run(tier):
                 ops.append(('mutorig', r.randrange(n), r.randint(51, 99)))
             else:
                 ops.append(('mut', r.randrange(nh), r.randint(1, 50)))
+        if ci % 20 == 3:
+            common.trip_unrelated_cache_guard(ld)        # other caches in the process hit their memory guard now and then
         wd = os.path.join(tmp, f'h{ci}')
         os.makedirs(wd)
         shape = r.choice(['dict', 'dict', 'tuple', 'list']) if kind != 'jsonfile' else r.choice(['dict', 'list'])      # JSON has no tuples
@@ -288,6 +290,7 @@ def replay(payload):
     ld = common.import_impl()
     c = payload['config']
     tmp = tempfile.mkdtemp(prefix='c09r_')
+    common.trip_unrelated_cache_guard(ld)          # as in the run: some other cache of the process has hit its memory guard before
     outs = run_history(ld, c['kind'], c['n'], c['keyed'], [tuple(o) for o in c['ops']], tmp, c.get('shape', 'dict'))
     shutil.rmtree(tmp, ignore_errors=True)
     print('  outs', outs)
